@@ -45,7 +45,7 @@ def gen(rng, n, ncalls_max, cancels=False, behaviours=True, keys=3, retention=No
             cs = {'i': i + 1, 'at': t, 'arg': arg}
             if explicit_keys and rng.random() < 0.25:
                 # explicit keys; arguments 1 and "1" collide by design under the default str(arg) key
-                cs['key'] = rng.choice(['k%d' % arg, str(arg)])
+                cs['key'] = rng.choice(['k%d' % arg, str(arg), ''])     # ('' is a key like any other)
             elif rng.random() < 0.1:
                 cs['arg'] = str(arg)
             if cancels and rng.random() < 0.35:
